@@ -934,6 +934,8 @@ def run(ctx):
         for seq in itertools.product(alphabet, repeat=n):
             if not is_req(seq[-1]):
                 continue      # nothing is observed after the last edit: same as the shorter sequence
+            if n > 2 and not ctx.thorough() and all(is_req(o) for o in seq):
+                continue      # quick: request-only sequences (no change on disk) up to length 2
             histories.append({'ops': setup + list(seq), 'packages': [P], 'rel_ok': False, 'origin': 'exhaustive',
                               'ranks': EXH_RANKS, 'spelling': SPELLINGS[len(histories) % len(SPELLINGS)]})
     nexh = len(histories) - ncorpus
